@@ -115,3 +115,61 @@ Theorem caller_is_ASend_ARecv want rest hs :
   h_mail_rx hs = true -> h_replies hs = HMethod want :: rest ->
   hstep (CCall want) hs = Some (ROk want, with_replies hs rest (h_mail hs + 1)).
 Proof. exact (@call_returns_head want rest hs). Qed.
+
+(* ---- ARead of the server's Channel.Close (ASrvClose / WClose of Model/Sys.v) ---- *)
+
+(* dropping senders does not touch what is queued *)
+Definition items_of (q : N) (m : qs) : option (list qitem) :=
+  match alookup q m with Some qu => Some (q_items qu) | None => None end.
+
+Lemma drop_tx_items q q' m : items_of q (drop_tx q' m) = items_of q m.
+Proof.
+  unfold drop_tx, items_of. destruct (alookup q' m) as [qu|] eqn:E; [|reflexivity].
+  destruct (N.eqb_spec q q') as [->|Hne].
+  - rewrite alookup_insert_eq, E. reflexivity.
+  - rewrite alookup_insert_neq by exact Hne. reflexivity.
+Qed.
+
+Lemma drop_tx_opt_items q q' m : items_of q (drop_tx_opt q' m) = items_of q m.
+Proof. destruct q'; [apply drop_tx_items|reflexivity]. Qed.
+
+Lemma drop_slot_qs_items q s m : items_of q (drop_slot_qs s m) = items_of q m.
+Proof.
+  unfold drop_slot_qs.
+  assert (A : forall (l : list msg) m0, items_of q (fold_left (fun m x => drop_tx_opt (msg_q x) m) l m0) = items_of q m0).
+  { induction l as [|x l IH]; intro m0; [reflexivity|]. cbn [fold_left]. rewrite IH. apply drop_tx_opt_items. }
+  assert (B : forall (l : list (str * N)) m0, items_of q (fold_left (fun m '(_, q0) => drop_tx q0 m) l m0) = items_of q m0).
+  { induction l as [|[t q0] l IH]; intro m0; [reflexivity|]. cbn [fold_left]. rewrite IH. apply drop_tx_items. }
+  rewrite A, !drop_tx_opt_items, B. apply drop_tx_items.
+Qed.
+
+(* the I/O thread processes the server's Channel.Close for channel n (no consumers attached: what
+   they are told is C09_effect's and C11's subject): the verdict goes BEHIND whatever the reply
+   queue holds - by C09_system_isolation at most one reply, so the capacity 2 the code gives the
+   queue has room for it -, the slot is gone with its mailbox, every other slot is as before and
+   Channel.CloseOk(n) is queued.  This is the step ARead of Model/Sys.v takes on a WClose item. *)
+Theorem io_close_is_ARead_close n code text dbg c s :
+  steady c -> n <> 0 -> alookup n (c_slots c) = Some s -> s_consumers s = [] ->
+  reply_queue_ok c n -> (length (view_replyq c n) <= 1)%nat ->
+  exists c', process c (FMethod n (MChanClose code text), dbg) = (OOk, c') /\
+    alookup n (c_slots c') = None /\
+    items_of (s_reply s) (c_qs c') = Some (view_replyq c n ++ [IReplyErr (EServerClosedChannel n code text)]) /\
+    (forall k, k <> n -> alookup k (c_slots c') = alookup k (c_slots c)) /\
+    c_out c' = ob_append (c_out c) (ser_chan_close_ok n).
+Proof.
+  intros Hst Hn Hs Hc Hok Hlen.
+  destruct (one_item_has_room Hok Hlen) as (s0 & Hs0 & Hroom). rewrite Hs in Hs0. inversion Hs0; subst s0.
+  unfold process. rewrite Hst. destruct n as [|p]; [contradiction|].
+  unfold process_method. rewrite Hs.
+  unfold notify_slot, notify_slot_gen. rewrite Hc. cbn [send_all].
+  unfold send. cbn [remove_slot set_slots c_qs].
+  rewrite (try_send_room _ Hroom). cbn [fst snd].
+  eexists. split; [reflexivity|].
+  destruct Hroom as (qu & Hq & _).
+  split; [|split; [|split]].
+  - cbn. apply alookup_remove_eq.
+  - cbn. rewrite drop_slot_qs_items. unfold items_of, pushed. rewrite Hq, alookup_insert_eq. cbn [q_items].
+    unfold view_replyq. rewrite Hs, Hq. reflexivity.
+  - intros k Hk. cbn. apply alookup_remove_neq. exact Hk.
+  - reflexivity.
+Qed.
